@@ -1,6 +1,7 @@
 """C16 — RAT-SPNs are normalised, marginalise exactly and complete/sample validly.
-Proof: Properties/C16.v (region graph partition, padding arithmetic, unpad index logic, top-down
-group indices, single-variable marginalisation / normalisation of every class output).
+Proof: Properties/C16.v (region graph partition, padding arithmetic, unpad index logic for any argsort,
+completion keeps evidence, top-down group indices, per-node marginalisation steps [partial]).
+Marginalisation/normalisation of whole class outputs and the sampler law are TIED here, not proved.
 Tie (engine E1): the constructor's region graph, masks, pad masks, argsort buffers against the model
 run on the RECORDED permutations; `forward` on complete rows and NaN patterns and `mpe` rows against
 the model evaluated at exact rationals; `sample` by a Hoeffding bound against the (tied) exact law;
@@ -197,10 +198,10 @@ def gen_rows(cfg, rs, tier):
     if cfg.kind == "bern" and n <= 4:
         rows = [list(r) for r in itertools.product([0, 1, None], repeat=n)]
         exh = True
-    elif cfg.kind == "bern" and n <= (7 if tier == "quick" else 9):
+    elif cfg.kind == "bern" and n <= (7 if tier == "quick" else 8):
         rows = [list(r) for r in itertools.product([0, 1], repeat=n)]
         exh = True
-    k = 30 if tier == "quick" else 120
+    k = 30 if tier == "quick" else 60
     extra = [[None] * n]
     for _ in range(k):
         rate = rs.choice([0.0, 0.2, 0.5, 0.8])
@@ -292,7 +293,7 @@ def direct_oracle(cfg, rs, tier, n_tests, want_sampling=True):
     N = 2000
     gof = want_sampling and cfg.kind == "bern" and n <= 6
     if gof:
-        N = 100000 if tier == "quick" else 1000000
+        N = 100000 if tier == "quick" else 400000
     for cls in range(cfg.classes if gof else 1):
         torch.manual_seed(cfg.seed + 17 * cls + 1)
         try:
@@ -341,7 +342,7 @@ def configs(rs, tier):
     (batch, sums, classes in 1..3) is sampled."""
     grid = [(n, d, r) for n in range(2, 13) for d in range(1, int(math.log2(n)) + 1) for r in (1, 2, 3)]
     out = []
-    nper = 1 if tier == "quick" else 4
+    nper = 1 if tier == "quick" else 3
     for (n, d, r) in grid:
         for _ in range(nper):
             b, s, c = (int(rs.randint(1, 4)) for _ in range(3))
@@ -416,8 +417,9 @@ def main(tier, seed, replay=None):
             cfg.build()
             st = cfg.structure()
         except Exception as e:
-            rep.violation(dict(kind="constructor-raised-on-accepted-architecture", config=cfg.key(),
-                               error=f"{type(e).__name__}: {e}"), True)
+            if n_viol < 5:
+                rep.violation(dict(kind="constructor-raised-on-accepted-architecture", config=cfg.key(),
+                                   error=f"{type(e).__name__}: {e}"), True)
             n_viol += 1
             continue
         crs = np.random.RandomState(cfg.seed)
@@ -433,7 +435,8 @@ def main(tier, seed, replay=None):
         try:
             impl = cfg.forward(rows)
         except Exception as e:
-            rep.violation(dict(kind="forward-raised", config=cfg.key(), error=f"{type(e).__name__}: {e}"), True)
+            if n_viol < 5:
+                rep.violation(dict(kind="forward-raised", config=cfg.key(), error=f"{type(e).__name__}: {e}"), True)
             n_viol += 1
             continue
         built.append((cfg, st, rows, exh, impl))
@@ -447,6 +450,7 @@ def main(tier, seed, replay=None):
             dist["nan_cells"][kk] = dist["nan_cells"].get(kk, 0) + 1
     rep.cov["input_distribution"] = dist
     rep.cov["direct_oracle"] = oracle_stats
+    rep.cov["configurations_failing_before_the_tie"] = n_viol
     # ---- E1 case files ----
     files = []
     sshard = 40
@@ -554,7 +558,7 @@ def main(tier, seed, replay=None):
         "(plus corner combinations), Bernoulli leaves with p=k/16, sum weights k/64, root weights k/128 (exact dyadics), random "
         "region-graph permutations recorded from the constructor; Gaussian configurations with dyadic means, unit scale, 4 test points; "
         "per configuration: structure case (region/partition layers, pad, dimension, mask, pad_mask, inv_mask validity, inv_pad_mask), "
-        "forward rows = all 3^n NaN patterns (n<=4) or all 2^n complete rows (n<=7 quick / 9 thorough) plus random NaN patterns, "
+        "forward rows = all 3^n NaN patterns (n<=4) or all 2^n complete rows (n<=7 quick / 8 thorough) plus random NaN patterns, "
         "mpe rows with random evidence and class; direct oracles on the implementation: total mass over all 2^n inputs, marginal = sum of "
         "completions, all-NaN = 0, completion shape/domain/evidence, sampling GOF (n<=6, Hoeffding delta=1e-9); "
         "one evaluation = one structure case or one (configuration, row) compared inside Coq; distinct by hash")
